@@ -585,21 +585,21 @@ def big(rng):
     put('C405', f'=SUMIF({colref},">0")', 'sumif', [addr(S1, coord(c0 + 1, r0 + r)) for r in range(h)])
     put('C406', f'=SUM({coord(c0, r0)}:{coord(c0 + w - 1, r0)})+C400', 'agg',
         [addr(S1, coord(c0 + c, r0)) for c in range(w)] + [addr(S1, 'C400')])
-    # 3. sorted table in BA:BB (columns 53, 54), rows 1..n
+    # 3. sorted table in CA:CB (columns 79, 80), rows 1..n
     n_tab = rng.choice([300, 450, 600])
     keys, vals = [], []
     for i in range(1, n_tab + 1):
-        put(f'BA{i}', 3 * i)
-        put(f'BB{i}', 1000 + i)
-        keys.append(addr(S1, f'BA{i}'))
-        vals.append(addr(S1, f'BB{i}'))
+        put(f'CA{i}', 3 * i)
+        put(f'CB{i}', 1000 + i)
+        keys.append(addr(S1, f'CA{i}'))
+        vals.append(addr(S1, f'CB{i}'))
     put('A410', 3 * rng.randint(1, n_tab))
     put('A411', 3 * rng.randint(1, n_tab) + 1)
-    put('D410', f'=MATCH(A410,BA1:BA{n_tab},0)', 'lookup', keys + [addr(S1, 'A410')])
-    put('D411', f'=VLOOKUP(A410,BA1:BB{n_tab},2,FALSE)', 'lookup', keys + vals + [addr(S1, 'A410')])
-    put('D412', f'=MATCH(A411,BA1:BA{n_tab},1)', 'lookup', keys + [addr(S1, 'A411')])
-    put('D413', f'=INDEX(BB1:BB{n_tab},{n_tab - 7})+D410', 'index', vals + [addr(S1, 'D410')])
-    put('D414', f'=VLOOKUP(A411,BA1:BB{n_tab},2,TRUE)+D412', 'lookup', keys + vals + [addr(S1, 'A411'), addr(S1, 'D412')])
+    put('D410', f'=MATCH(A410,CA1:CA{n_tab},0)', 'lookup', keys + [addr(S1, 'A410')])
+    put('D411', f'=VLOOKUP(A410,CA1:CB{n_tab},2,FALSE)', 'lookup', keys + vals + [addr(S1, 'A410')])
+    put('D412', f'=MATCH(A411,CA1:CA{n_tab},1)', 'lookup', keys + [addr(S1, 'A411')])
+    put('D413', f'=INDEX(CB1:CB{n_tab},{n_tab - 7})+D410', 'index', vals + [addr(S1, 'D410')])
+    put('D414', f'=VLOOKUP(A411,CA1:CB{n_tab},2,TRUE)+D412', 'lookup', keys + vals + [addr(S1, 'A411'), addr(S1, 'D412')])
     # 4. a dozen sheets added up
     n_sheets = rng.randint(10, 14)
     terms, deps = [], []
